@@ -133,6 +133,12 @@ class SafetyMonitor(Monitor):
             return
         if r.startswith('err:InternalError'):
             ex.report('C06', 'internal error in %s: %s' % (action[0], r[18:140]), ns)
+            try:
+                # the call gave up half way: is the evaluation left without anything to do although it is not finished?
+                if action[0] != 'history' and not ns.eng.is_finished() and not ns.eng.query_ready_to_run() and not ns.eng.query_jobs_running():
+                    ex.report('C05', 'stall: after the internal error in %s the evaluation is not finished but nothing is ready or running' % action[0], ns)
+            except rt.RustPanic:
+                pass
             if action[0] == 'abort':
                 ex.report('C10', 'abort returned an internal error', ns)
             if action[0] == 'history' and ns.dv.aborted:
@@ -453,6 +459,11 @@ class OracleMonitor(Monitor):
             for j in sorted(dv.blocked):
                 if j not in uf and not uni.exempt[j]:
                     ex.report('C07', 'job %s depends on a failed job but ended %s instead of upstream-failed' % (j, state[j]), st)
+            for e in sorted(dv.c16):
+                for d in uni.downs[e]:
+                    if d not in dv.started and d not in uf and not uni.exempt[d]:
+                        ex.report('C16', 'ephemeral %s was failed for changing its output but its not-yet-started dependant %s ended %s '
+                                         'instead of upstream-failed' % (e, d, state[d]), st)
             if dv.failed:
                 anc_failed = {}
                 for j in uni.topo_order():
@@ -485,21 +496,29 @@ class OracleMonitor(Monitor):
                     if not self.entries_identical(st, h_entry(h1, k), spec_entry(uni, k), modulo=True, consumer=(j if '!!!' in k and not k.endswith('!!!') else '!!!')):
                         ex.report('C09', 'never-started job %s (%s): record %r not kept unchanged' % (j, state[j], k), st)
             elif j in okd:
+                # presence may still be a symbolic atom when the engine carried an input record over instead of writing it:
+                # then the obligation (present and equal) is decided by the solver, whose model is the counterexample
                 p, v = h_entry(h1, j)
-                if p is not True or rt.term_of(v) != okd[j]:
-                    ex.report('C11', 'executed job %s: output record is %r, reported %r' % (j, v, okd[j]), st)
+                if p is False:
+                    ex.report('C11', 'executed job %s: no output record, reported %r' % (j, okd[j]), st)
+                elif p is not True or rt.term_of(v) != okd[j]:
+                    self.oblige(st, 'C11', F.And(F.Atom(p), F.Eq(rt.term_of(v), okd[j])),
+                                'executed job %s: output record is not what it reported' % j)
                 p, v = h_entry(h1, j + '!!!')
-                if p is not True or v != uni.names(j):
-                    ex.report('C11', 'executed job %s: input-name record is %r, expected %r' % (j, v, uni.names(j)), st)
+                if p is False:
+                    ex.report('C11', 'executed job %s: no input-name record, expected %r' % (j, uni.names(j)), st)
+                elif p is not True or v != uni.names(j):
+                    self.oblige(st, 'C11', F.And(F.Atom(p), F.Eq(rt.term_of(v), ('lit', uni.names(j)))),
+                                'executed job %s: input-name record is not the current input list %r' % (j, uni.names(j)))
                 cons = dict(dict(dv.consumed).get(j, ()))
                 for u in ups:
                     k = '%s!!!%s' % (u, j)
                     p, v = h_entry(h1, k)
-                    if p is not True or cons.get(u) is None:
+                    if p is False or cons.get(u) is None:
                         ex.report('C11', 'executed job %s: no record %r of the consumed upstream output' % (j, k), st)
-                    elif rt.term_of(v) != cons[u]:
-                        self.oblige(st, 'C11', F.Eq(rt.term_of(v), cons[u]),
-                                    'executed job %s: record %r differs from the upstream output it consumed' % (j, k))
+                    elif p is not True or rt.term_of(v) != cons[u]:
+                        self.oblige(st, 'C11', F.And(F.Atom(p), F.Eq(rt.term_of(v), cons[u])),
+                                    'executed job %s: record %r is missing or differs from the upstream output it consumed' % (j, k))
             elif state[j] == 'FinishedSkipped' and not uni.exempt[j]:
                 for k in own_keys:
                     if not self.entries_identical(st, h_entry(h1, k), spec_entry(uni, k), need_present=True):
@@ -607,6 +626,7 @@ class MisuseMonitor(Monitor):
 
     def on_quiescent(self, st):
         from . import engine_api as E, sym
+        from .explore import canon_value
         ex = self.ex
         uni = self.uni
         if not st.dv.startup_done:
@@ -618,6 +638,11 @@ class MisuseMonitor(Monitor):
             return
         self.seen.add(ekey)
         self.distinct += 1
+        # every reachable state of the complete enumerations (<= 3 jobs) gets every illegal call; in the larger H-BUILT
+        # universes (whose purpose is depth of the scheduling logic, not the call guards) every 8th distinct engine state does
+        if getattr(uni, 'built', False) and len(uni.ids) >= 4 and self.distinct % 8 != 1:
+            return
+        self.checked = getattr(self, 'checked', 0) + 1
         ready = eng0.query_ready_to_run()
         running = eng0.query_jobs_running()
         cleanup = eng0.query_ready_for_cleanup()
@@ -660,12 +685,13 @@ class MisuseMonitor(Monitor):
                 ex.report('C20', 'illegal call %s(%s) was not rejected with an API error: %s' % (kind, j, res), st, detail=('misuse', kind, j))
                 bad = True
             try:
-                after = self.snapshot(eng)
+                # the query results are functions of the engine value: comparing the complete value is enough
+                after = canon_value(eng.cell[0])
                 fin1 = bool(eng.is_finished())
             except rt.RustPanic:
                 after = None
                 fin1 = None
-            if after != base or fin1 != fin0:
+            if after != base[0] or fin1 != fin0:
                 if not bad:
                     ex.report('C20', 'rejected illegal call %s(%s) changed the state of the evaluation' % (kind, j), st, detail=('misuse', kind, j))
                 bad = True
